@@ -5,11 +5,7 @@ open Proto Model Model.C02 Model.C07
 namespace Driver.C07
 
 def mkObj (basis : String) : Option AvObj :=
-  let r := match Driver.C02.parseBasis basis with
-    | .inl (.mesh l) => Proc.init.newMesh "a" l
-    | .inl b => Proc.init.newClass "a" b
-    | .inr l => Proc.init.newClassical "a" l
-  match r with
+  match Driver.C02.newFromBasisString Proc.init "a" basis with
   | .ok s => (s.obj? "a").map (·.2)
   | .error _ => none
 
